@@ -298,7 +298,9 @@ func c01Families(tier string) []explore.Family {
 		rx := radix{i}
 		f, d, sh := deepForms[rx.next(len(deepForms))], deepDepths[rx.next(len(deepDepths))], deepShapes[rx.next(len(deepShapes))]
 		a, b := deepBuild(sh, d), deepBuild(sh, d)
-		c01Check(r, "deep-value", f, map[string]any{"a": a, "b": b, "l": []any{a, b}}, func() any { return map[string]any{"template": f, "a and b": fmt.Sprintf("%s nested %d levels around 1", sh, d)} })
+		c01Check(r, "deep-value", f, map[string]any{"a": a, "b": b, "l": []any{a, b}}, func() any {
+			return map[string]any{"template": f, "a and b": fmt.Sprintf("%s nested %d levels around 1", sh, d)}
+		})
 	}})
 
 	// 3. syntax space
